@@ -76,6 +76,13 @@ def programs(tier):
                                 add(("chain", mid, ("leaf", other)))
                         except IllTyped:
                             pass
+        if st[1] == "S":
+            N1, N2, N3 = ("leaf", "N1"), ("leaf", "N2"), ("leaf", "N3")
+            for l, r in ((N1, N2), (N2, N1), (N1, N3), (N3, N2), (("xfer", N1, "it1"), N2), (("sel", N1, ("gt", ("ref", "a"), ("lit", "$k2"))), N2)):
+                add(("join", l, r, None))
+                add(("join", l, r, None, (True, True)))
+                add(("join", l, r, None, "apply")) if l[0] != "xfer" else None
+                add(("dedup", ("join", l, r, ("lt", ("ref", "v"), ("ref", "v")))))
         # Join objects applied directly (BinaryOperation.apply), common columns unresolved at the call
         same = [n for n, (e, cs) in meprogs.LEAVES.items() if e == meprogs.LEAVES[st[1]][0] and n != st[1]]
         for other in same:
